@@ -34,8 +34,7 @@ pub fn from_std_in<R: Read>(stdin: R) -> Reader<R> {
 
 pub fn from_string(source: &String) -> Reader<&[u8]> {
     let reader = source.as_bytes();
-    let mut name = source.clone();
-    name.truncate(32);
+    let name: String = source.chars().take(32).collect();
     Reader::new(reader, Some(name))
 }
 
